@@ -201,8 +201,8 @@ RULE = ('Histories = start state (empty / dict / pair list / parsed from str, by
         'with dump->parse raised, 10 start kinds incl. iter_paragraphs(bytes), bytes line list, lazy wrapper over a '
         'bytes-parsed paragraph, 10 dump->parse routes incl. binary / text file objects handed to the parser, all sort keys, all copy routes, update from dict / pairs / '
         'Deb822Dict), all sequences of length <= 2 (quick) / <= 3 (thorough) over the 18-operation alphabet with a/b/c '
-        'replaced by 4 name maps (blank A, dotted, blank B, mixed) from 4 (quick) / 8 (thorough) start states, every sort '
-        'key x 2 / 12 fixed start orders x 4 start kinds, the bulk-removal enumeration over 2 (quick: half of the '
+        'replaced by 4 name maps (blank A, dotted, blank B, mixed) from 3 (quick) / 8 (thorough) start states, every sort '
+        'key x 2 / 12 fixed start orders x 4 start kinds (quick: half of the combinations per seed parity), the bulk-removal enumeration over 2 (quick: half of the '
         'start x removal pairs per seed parity) / 6 more name sets, and seeded "bulk-special" histories.  Counters '
         '<blank|blankb|dotted>:variant:<operation> (a PRESENT field of the class addressed through a spelling different '
         'from the stored one, per operation kind and item / reference role), dotted:lenvariant:<operation> (... through a '
@@ -352,12 +352,12 @@ UNI_MAX_OPS = {'quick': 22, 'thorough': 32}
 UNI_ENUM_LEN = {'quick': 2, 'thorough': 3}
 UNI_SORT_ORDERS = {'quick': 3, 'thorough': 24}
 # round 9: flavours 'blank' / 'blank-b' / 'dotted' (the classic generator over the new alphabets)
-SPECIAL_HISTORIES = {'blank': {'quick': 600, 'thorough': 30000}, 'blank-b': {'quick': 320, 'thorough': 14000},
-                     'dotted': {'quick': 480, 'thorough': 24000}}
+SPECIAL_HISTORIES = {'blank': {'quick': 400, 'thorough': 24000}, 'blank-b': {'quick': 200, 'thorough': 12000},
+                     'dotted': {'quick': 320, 'thorough': 20000}}
 SPECIAL_MAX_OPS = {'quick': 20, 'thorough': 30}
 SPECIAL_ENUM_LEN = {'quick': 2, 'thorough': 3}
 SPECIAL_SORT_ORDERS = {'quick': 2, 'thorough': 12}
-SPECIAL_BULK_HISTORIES = {'quick': 200, 'thorough': 12000}
+SPECIAL_BULK_HISTORIES = {'quick': 160, 'thorough': 10000}
 SPECIAL_BULK_ENUM_ROUNDS = {'quick': 2, 'thorough': 6}
 ENUM_LEN = {'quick': 3, 'thorough': 4}
 
@@ -488,6 +488,163 @@ BULK_OTHER_FLOOR = {
 BULK_MONITOR_FLOOR = {
     'quick': {'M.emptied': 8600, 'M.after-emptied': 16000, 'M.ghost.after-emptied': 2200},
     'thorough': {'M.emptied': 530000, 'M.after-emptied': 1000000, 'M.ghost.after-emptied': 150000},
+}
+# round 9, names with blank-like characters / case variants of different length.  GENERATED from measurements on the
+# unchanged tree (quick: minimum over VERIF_SEED 0-5, thorough: seed 0 / 10): about 50% of the minimum, small counts at
+# least 4 sigma below it and never below 1 - those say "was exercised at all"; the enumerated cases alone (which do not
+# depend on the seed) reach every one of them.  Counters measured below 8 in some quick run have no floor.
+SPECIAL_FLOORS = {
+    'quick': {
+        'monitors': {'M.blank': 8000, 'M.blankb': 1800, 'M.dotted': 4300},
+        'counters': {'blank:clear': 71, 'blank:copy:Deb822': 35, 'blank:copy:Deb822Dict': 39, 'blank:copy:copy': 40,
+                     'blank:copy:ctor': 53, 'blank:copy:ctor-dict': 34, 'blank:copy:ctor-dict-items': 33,
+                     'blank:copy:ctor-item-list': 32, 'blank:copy:ctor-items': 35, 'blank:copy:dict': 21,
+                     'blank:copy:dict-items': 16, 'blank:copy:list': 22, 'blank:copy:list-items': 23,
+                     'blank:copy:list-keys': 19, 'blank:copy:list-values': 28, 'blank:copy:tuple-items': 22,
+                     'blank:cycle:bytes': 14, 'blank:cycle:fd-bytes': 26, 'blank:cycle:fd-text': 3,
+                     'blank:cycle:file-bytes': 16, 'blank:cycle:file-text': 4, 'blank:cycle:iter': 3,
+                     'blank:cycle:iter-bytes': 13, 'blank:cycle:lines': 33, 'blank:cycle:lines-bytes': 13,
+                     'blank:cycle:str': 13, 'blank:cycled:U+001C': 2, 'blank:cycled:U+001D': 2, 'blank:cycled:U+001E':
+                     1, 'blank:cycled:U+001F': 34, 'blank:cycled:U+0085': 1, 'blank:cycled:U+00A0': 76,
+                     'blank:cycled:U+1680': 1, 'blank:cycled:U+2000': 1, 'blank:cycled:U+2001': 1,
+                     'blank:cycled:U+2002': 2, 'blank:cycled:U+2003': 51, 'blank:cycled:U+2004': 1,
+                     'blank:cycled:U+2005': 1, 'blank:cycled:U+2006': 4, 'blank:cycled:U+2007': 36,
+                     'blank:cycled:U+2008': 1, 'blank:cycled:U+2009': 5, 'blank:cycled:U+200A': 4,
+                     'blank:cycled:U+2028': 1, 'blank:cycled:U+2029': 1, 'blank:cycled:U+202F': 1,
+                     'blank:cycled:U+205F': 2, 'blank:cycled:U+3000': 26, 'blank:fail:self-relative-variant': 210,
+                     'blank:failed-op': 1000, 'blank:parsed:U+001C': 180, 'blank:parsed:U+001D': 1,
+                     'blank:parsed:U+001E': 1, 'blank:parsed:U+001F': 220, 'blank:parsed:U+0085': 180,
+                     'blank:parsed:U+00A0': 240, 'blank:parsed:U+1680': 180, 'blank:parsed:U+2000': 5,
+                     'blank:parsed:U+2001': 7, 'blank:parsed:U+2002': 6, 'blank:parsed:U+2003': 45,
+                     'blank:parsed:U+2004': 3, 'blank:parsed:U+2005': 5, 'blank:parsed:U+2006': 5,
+                     'blank:parsed:U+2007': 30, 'blank:parsed:U+2008': 2, 'blank:parsed:U+2009': 11,
+                     'blank:parsed:U+200A': 11, 'blank:parsed:U+2028': 180, 'blank:parsed:U+2029': 1,
+                     'blank:parsed:U+202F': 5, 'blank:parsed:U+205F': 6, 'blank:parsed:U+3000': 190, 'blank:popitem':
+                     89, 'blank:reinit': 5, 'blank:sort:caller-key': 62, 'blank:sort:default': 210,
+                     'blank:sort:moved': 290, 'blank:sort:stored-key': 94, 'blank:start:dict': 570,
+                     'blank:start:iter': 14, 'blank:start:iter-bytes': 12, 'blank:start:lazy': 42,
+                     'blank:start:lazy-bytes': 190, 'blank:start:pairs': 18, 'blank:start:parsed-bytes': 56,
+                     'blank:start:parsed-lines': 190, 'blank:start:parsed-lines-bytes': 7, 'blank:start:parsed-str':
+                     210, 'blank:variant:after-item': 270, 'blank:variant:after-ref': 290,
+                     'blank:variant:before-item': 320, 'blank:variant:before-ref': 330, 'blank:variant:del': 260,
+                     'blank:variant:first': 190, 'blank:variant:get': 43, 'blank:variant:in': 36,
+                     'blank:variant:last': 230, 'blank:variant:pop': 51, 'blank:variant:set': 340,
+                     'blank:variant:setdefault': 24, 'blank:variant:update': 93, 'blankb:copy:Deb822': 1,
+                     'blankb:copy:Deb822Dict': 1, 'blankb:copy:ctor': 1, 'blankb:copy:ctor-dict-items': 1,
+                     'blankb:copy:ctor-item-list': 1, 'blankb:copy:ctor-items': 1, 'blankb:copy:dict': 1,
+                     'blankb:copy:list-items': 1, 'blankb:copy:list-values': 1, 'blankb:cycle:bytes': 1,
+                     'blankb:cycle:fd-bytes': 1, 'blankb:cycle:file-bytes': 1, 'blankb:cycle:iter-bytes': 1,
+                     'blankb:cycle:lines': 1, 'blankb:cycle:lines-bytes': 1, 'blankb:fail:self-relative-variant': 54,
+                     'blankb:failed-op': 190, 'blankb:sort:caller-key': 1, 'blankb:sort:default': 45,
+                     'blankb:sort:moved': 49, 'blankb:sort:stored-key': 4, 'blankb:start:dict': 180,
+                     'blankb:start:iter-bytes': 1, 'blankb:start:lazy-bytes': 180, 'blankb:start:parsed-bytes': 12,
+                     'blankb:start:parsed-lines': 1, 'blankb:start:parsed-lines-bytes': 1,
+                     'blankb:variant:after-item': 95, 'blankb:variant:after-ref': 96, 'blankb:variant:before-item':
+                     98, 'blankb:variant:before-ref': 99, 'blankb:variant:del': 82, 'blankb:variant:first': 55,
+                     'blankb:variant:get': 1, 'blankb:variant:in': 1, 'blankb:variant:last': 54, 'blankb:variant:pop':
+                     1, 'blankb:variant:set': 94, 'blankb:variant:setdefault': 1, 'blankb:variant:update': 1,
+                     'dotted:assign-through-lenvariant-adds-no-field': 130, 'dotted:clear': 66, 'dotted:copy:Deb822':
+                     8, 'dotted:copy:Deb822Dict': 12, 'dotted:copy:copy': 16, 'dotted:copy:ctor': 39,
+                     'dotted:copy:ctor-dict': 16, 'dotted:copy:ctor-dict-items': 8, 'dotted:copy:ctor-item-list': 6,
+                     'dotted:copy:ctor-items': 14, 'dotted:copy:dict': 4, 'dotted:copy:dict-items': 5,
+                     'dotted:copy:list': 8, 'dotted:copy:list-items': 5, 'dotted:copy:list-keys': 7,
+                     'dotted:copy:list-values': 6, 'dotted:copy:tuple-items': 5, 'dotted:cycle:bytes': 1,
+                     'dotted:cycle:fd-bytes': 7, 'dotted:cycle:fd-text': 1, 'dotted:cycle:file-bytes': 1,
+                     'dotted:cycle:file-text': 1, 'dotted:cycle:iter': 1, 'dotted:cycle:iter-bytes': 1,
+                     'dotted:cycle:lines': 5, 'dotted:cycle:lines-bytes': 1, 'dotted:cycle:str': 3,
+                     'dotted:fail:self-relative-lenvariant': 73, 'dotted:fail:self-relative-variant': 90,
+                     'dotted:failed-op': 450, 'dotted:lenvariant:after-item': 85, 'dotted:lenvariant:after-ref': 87,
+                     'dotted:lenvariant:before-item': 110, 'dotted:lenvariant:before-ref': 110,
+                     'dotted:lenvariant:del': 94, 'dotted:lenvariant:first': 58, 'dotted:lenvariant:get': 10,
+                     'dotted:lenvariant:in': 2, 'dotted:lenvariant:last': 93, 'dotted:lenvariant:pop': 11,
+                     'dotted:lenvariant:set': 120, 'dotted:lenvariant:setdefault': 1, 'dotted:lenvariant:update': 43,
+                     'dotted:popitem': 78, 'dotted:reinit': 1, 'dotted:sort:caller-key': 29, 'dotted:sort:default':
+                     130, 'dotted:sort:moved': 170, 'dotted:sort:stored-key': 51, 'dotted:start:dict': 370,
+                     'dotted:start:iter': 3, 'dotted:start:iter-bytes': 1, 'dotted:start:lazy': 30,
+                     'dotted:start:lazy-bytes': 1, 'dotted:start:pairs': 5, 'dotted:start:parsed-bytes': 190,
+                     'dotted:start:parsed-lines': 11, 'dotted:start:parsed-lines-bytes': 1, 'dotted:start:parsed-str':
+                     22, 'dotted:variant:after-item': 120, 'dotted:variant:after-ref': 110,
+                     'dotted:variant:before-item': 140, 'dotted:variant:before-ref': 150, 'dotted:variant:del': 130,
+                     'dotted:variant:first': 83, 'dotted:variant:get': 26, 'dotted:variant:in': 8,
+                     'dotted:variant:last': 120, 'dotted:variant:pop': 22, 'dotted:variant:set': 180,
+                     'dotted:variant:setdefault': 2, 'dotted:variant:update': 63, 'special:nontrivial': 1300}},
+    'thorough': {
+        'monitors': {'M.blank': 520000, 'M.blankb': 130000, 'M.dotted': 270000},
+        'counters': {'blank:clear': 2400, 'blank:copy:Deb822': 2700, 'blank:copy:Deb822Dict': 2700, 'blank:copy:copy':
+                     2800, 'blank:copy:ctor': 3100, 'blank:copy:ctor-dict': 2700, 'blank:copy:ctor-dict-items': 2600,
+                     'blank:copy:ctor-item-list': 2700, 'blank:copy:ctor-items': 2700, 'blank:copy:dict': 1900,
+                     'blank:copy:dict-items': 1900, 'blank:copy:list': 1900, 'blank:copy:list-items': 1900,
+                     'blank:copy:list-keys': 2000, 'blank:copy:list-values': 1900, 'blank:copy:tuple-items': 1900,
+                     'blank:cycle:bytes': 960, 'blank:cycle:fd-bytes': 960, 'blank:cycle:fd-text': 960,
+                     'blank:cycle:file-bytes': 960, 'blank:cycle:file-text': 960, 'blank:cycle:iter': 960,
+                     'blank:cycle:iter-bytes': 960, 'blank:cycle:lines': 960, 'blank:cycle:lines-bytes': 960,
+                     'blank:cycle:str': 960, 'blank:cycled:U+001C': 1200, 'blank:cycled:U+001D': 960,
+                     'blank:cycled:U+001E': 960, 'blank:cycled:U+001F': 1800, 'blank:cycled:U+0085': 960,
+                     'blank:cycled:U+00A0': 3900, 'blank:cycled:U+1680': 1200, 'blank:cycled:U+2000': 1300,
+                     'blank:cycled:U+2001': 1200, 'blank:cycled:U+2002': 1200, 'blank:cycled:U+2003': 1600,
+                     'blank:cycled:U+2004': 1200, 'blank:cycled:U+2005': 1200, 'blank:cycled:U+2006': 1100,
+                     'blank:cycled:U+2007': 1600, 'blank:cycled:U+2008': 1200, 'blank:cycled:U+2009': 1600,
+                     'blank:cycled:U+200A': 1600, 'blank:cycled:U+2028': 1200, 'blank:cycled:U+2029': 960,
+                     'blank:cycled:U+202F': 1300, 'blank:cycled:U+205F': 1200, 'blank:cycled:U+3000': 1200,
+                     'blank:fail:self-relative-variant': 16000, 'blank:failed-op': 96000, 'blank:parsed:U+001C': 8000,
+                     'blank:parsed:U+001D': 680, 'blank:parsed:U+001E': 680, 'blank:parsed:U+001F': 8800,
+                     'blank:parsed:U+0085': 5600, 'blank:parsed:U+00A0': 12000, 'blank:parsed:U+1680': 5900,
+                     'blank:parsed:U+2000': 1000, 'blank:parsed:U+2001': 960, 'blank:parsed:U+2002': 960,
+                     'blank:parsed:U+2003': 6200, 'blank:parsed:U+2004': 1000, 'blank:parsed:U+2005': 960,
+                     'blank:parsed:U+2006': 880, 'blank:parsed:U+2007': 1200, 'blank:parsed:U+2008': 880,
+                     'blank:parsed:U+2009': 1200, 'blank:parsed:U+200A': 1200, 'blank:parsed:U+2028': 10000,
+                     'blank:parsed:U+2029': 710, 'blank:parsed:U+202F': 960, 'blank:parsed:U+205F': 960,
+                     'blank:parsed:U+3000': 10000, 'blank:popitem': 3400, 'blank:reinit': 960,
+                     'blank:sort:caller-key': 5200, 'blank:sort:default': 12000, 'blank:sort:moved': 14000,
+                     'blank:sort:stored-key': 6100, 'blank:start:dict': 25000, 'blank:start:iter': 1200,
+                     'blank:start:iter-bytes': 1100, 'blank:start:lazy': 7200, 'blank:start:lazy-bytes': 4100,
+                     'blank:start:pairs': 1100, 'blank:start:parsed-bytes': 12000, 'blank:start:parsed-lines': 8800,
+                     'blank:start:parsed-lines-bytes': 960, 'blank:start:parsed-str': 7000,
+                     'blank:variant:after-item': 20000, 'blank:variant:after-ref': 22000, 'blank:variant:before-item':
+                     23000, 'blank:variant:before-ref': 24000, 'blank:variant:del': 13000, 'blank:variant:first':
+                     14000, 'blank:variant:get': 4000, 'blank:variant:in': 3400, 'blank:variant:last': 16000,
+                     'blank:variant:pop': 4600, 'blank:variant:set': 23000, 'blank:variant:setdefault': 2900,
+                     'blank:variant:update': 6300, 'blankb:copy:Deb822': 600, 'blankb:copy:Deb822Dict': 570,
+                     'blankb:copy:ctor': 610, 'blankb:copy:ctor-dict-items': 580, 'blankb:copy:ctor-item-list': 610,
+                     'blankb:copy:ctor-items': 620, 'blankb:copy:dict': 430, 'blankb:copy:list-items': 440,
+                     'blankb:copy:list-values': 440, 'blankb:cycle:bytes': 530, 'blankb:cycle:fd-bytes': 530,
+                     'blankb:cycle:file-bytes': 530, 'blankb:cycle:iter-bytes': 530, 'blankb:cycle:lines': 530,
+                     'blankb:cycle:lines-bytes': 530, 'blankb:fail:self-relative-variant': 4600, 'blankb:failed-op':
+                     26000, 'blankb:sort:caller-key': 1200, 'blankb:sort:default': 3500, 'blankb:sort:moved': 3800,
+                     'blankb:sort:stored-key': 1200, 'blankb:start:dict': 8000, 'blankb:start:iter-bytes': 470,
+                     'blankb:start:lazy-bytes': 3100, 'blankb:start:parsed-bytes': 6000, 'blankb:start:parsed-lines':
+                     2800, 'blankb:start:parsed-lines-bytes': 390, 'blankb:variant:after-item': 5800,
+                     'blankb:variant:after-ref': 6400, 'blankb:variant:before-item': 6600,
+                     'blankb:variant:before-ref': 7000, 'blankb:variant:del': 3600, 'blankb:variant:first': 3400,
+                     'blankb:variant:get': 780, 'blankb:variant:in': 740, 'blankb:variant:last': 4700,
+                     'blankb:variant:pop': 730, 'blankb:variant:set': 6000, 'blankb:variant:setdefault': 600,
+                     'blankb:variant:update': 1200, 'dotted:assign-through-lenvariant-adds-no-field': 8800,
+                     'dotted:clear': 1200, 'dotted:copy:Deb822': 1200, 'dotted:copy:Deb822Dict': 1200,
+                     'dotted:copy:copy': 1300, 'dotted:copy:ctor': 1400, 'dotted:copy:ctor-dict': 1200,
+                     'dotted:copy:ctor-dict-items': 1200, 'dotted:copy:ctor-item-list': 1200,
+                     'dotted:copy:ctor-items': 1200, 'dotted:copy:dict': 880, 'dotted:copy:dict-items': 880,
+                     'dotted:copy:list': 880, 'dotted:copy:list-items': 960, 'dotted:copy:list-keys': 960,
+                     'dotted:copy:list-values': 960, 'dotted:copy:tuple-items': 880, 'dotted:cycle:bytes': 490,
+                     'dotted:cycle:fd-bytes': 490, 'dotted:cycle:fd-text': 490, 'dotted:cycle:file-bytes': 490,
+                     'dotted:cycle:file-text': 490, 'dotted:cycle:iter': 490, 'dotted:cycle:iter-bytes': 490,
+                     'dotted:cycle:lines': 490, 'dotted:cycle:lines-bytes': 490, 'dotted:cycle:str': 490,
+                     'dotted:fail:self-relative-lenvariant': 6300, 'dotted:fail:self-relative-variant': 8000,
+                     'dotted:failed-op': 48000, 'dotted:lenvariant:after-item': 7100, 'dotted:lenvariant:after-ref':
+                     7600, 'dotted:lenvariant:before-item': 8000, 'dotted:lenvariant:before-ref': 8000,
+                     'dotted:lenvariant:del': 4800, 'dotted:lenvariant:first': 4500, 'dotted:lenvariant:get': 1200,
+                     'dotted:lenvariant:in': 1100, 'dotted:lenvariant:last': 5700, 'dotted:lenvariant:pop': 1400,
+                     'dotted:lenvariant:set': 8000, 'dotted:lenvariant:setdefault': 960, 'dotted:lenvariant:update':
+                     2000, 'dotted:popitem': 1600, 'dotted:reinit': 550, 'dotted:sort:caller-key': 2500,
+                     'dotted:sort:default': 6900, 'dotted:sort:moved': 7600, 'dotted:sort:stored-key': 2800,
+                     'dotted:start:dict': 13000, 'dotted:start:iter': 770, 'dotted:start:iter-bytes': 470,
+                     'dotted:start:lazy': 6300, 'dotted:start:lazy-bytes': 640, 'dotted:start:pairs': 560,
+                     'dotted:start:parsed-bytes': 6200, 'dotted:start:parsed-lines': 3400,
+                     'dotted:start:parsed-lines-bytes': 360, 'dotted:start:parsed-str': 6200,
+                     'dotted:variant:after-item': 8800, 'dotted:variant:after-ref': 10000,
+                     'dotted:variant:before-item': 10000, 'dotted:variant:before-ref': 10000, 'dotted:variant:del':
+                     6600, 'dotted:variant:first': 5900, 'dotted:variant:get': 1700, 'dotted:variant:in': 1600,
+                     'dotted:variant:last': 8000, 'dotted:variant:pop': 2000, 'dotted:variant:set': 10000,
+                     'dotted:variant:setdefault': 1400, 'dotted:variant:update': 2800, 'special:nontrivial': 74000}},
 }
 # the tolerated-unspecified probes are a fixed list run by every shard: their floors (pairs x 2 classes = one
 # shard's worth, built below) only say "they ran", never anything about their outcome
@@ -820,6 +977,8 @@ for _tier in FLOORS:
         FLOORS[_tier]['counters']['bulk:clear-then-update:%s' % _h] = BULK_CLEAR_UPDATE_FLOOR[_tier]
     FLOORS[_tier]['counters'].update(BULK_OTHER_FLOOR[_tier])
     FLOORS[_tier]['monitors'].update(BULK_MONITOR_FLOOR[_tier])
+    FLOORS[_tier]['counters'].update(SPECIAL_FLOORS[_tier]['counters'])
+    FLOORS[_tier]['monitors'].update(SPECIAL_FLOORS[_tier]['monitors'])
     for _c, _pairs in TOLERATED.items():
         FLOORS[_tier]['counters']['tolerated:%s' % _c] = len(_pairs) * 2
     FLOORS[_tier]['counters']['tolerated:probes'] = sum(len(_p) for _p in TOLERATED.values()) * 2
@@ -1282,14 +1441,14 @@ _BYTES_TWIN = {'parsed-str': 'parsed-bytes', 'lazy': 'lazy-bytes', 'iter': 'iter
 
 
 def special_enum_cases(ctx):
-    """ENUM_OPS over the round-9 names: all sequences of length <= SPECIAL_ENUM_LEN from 4 (quick) / 8 (thorough)
+    """ENUM_OPS over the round-9 names: all sequences of length <= SPECIAL_ENUM_LEN from 3 (quick) / 8 (thorough)
     start states per map."""
     idx = 0
     for mi, (mname, mp) in enumerate(SPECIAL_ENUM_MAPS):
         starts = []
         for si, st in enumerate(SPECIAL_ENUM_STARTS):
-            if ctx.quick and si not in (0, 3, 4, 5 + mi % 3):
-                continue                        # quick: empty, dict of three, parsed from str, one more parsed kind
+            if ctx.quick and si not in (0, 3, 4 + mi):
+                continue                        # quick: empty, dict of three, one parsed kind (another one per map)
             st = dict(st, pairs=[[mp[k], v] for k, v in st['pairs']])
             if mname == 'blank-b':
                 st['kind'] = _BYTES_TWIN.get(st['kind'], st['kind'])
@@ -1333,6 +1492,8 @@ def special_sort_cases(ctx):
     for oi, order in enumerate(special_sort_orders(ctx.tier)):
         for ki, kname in enumerate(knames):
             for si, (cls, skind) in enumerate(SORT_ENUM_STARTS):
+                if ctx.quick and (oi + ki + si) % 2 != ctx.seed % 2:
+                    continue                    # quick: half of the combinations, the other half with the next seed
                 idx += 1
                 if not ctx.mine(idx):
                     continue
@@ -1751,10 +1912,11 @@ def cases(ctx):
                                          ' (quick: each start x removal pair with one of the 2 name sets)' if ctx.quick else ''),
         'names with blank-like characters / case variants of different length: all operation sequences of length '
         '1..%d over ENUM_OPS with a/b/c replaced by %d name maps (%s) from %d start states each; every one of the %d '
-        'sort keys x %d fixed start orders x %d start kinds; the bulk-removal enumeration over %d more name sets'
+        'sort keys x %d fixed start orders x %d start kinds; the bulk-removal enumeration over %d more name sets%s'
         % (SPECIAL_ENUM_LEN[ctx.tier], len(SPECIAL_ENUM_MAPS), ', '.join(n for n, _ in SPECIAL_ENUM_MAPS),
-           4 if ctx.quick else len(SPECIAL_ENUM_STARTS), len(SORT_KEYS), SPECIAL_SORT_ORDERS[ctx.tier], len(SORT_ENUM_STARTS),
-           SPECIAL_BULK_ENUM_ROUNDS[ctx.tier])]
+           3 if ctx.quick else len(SPECIAL_ENUM_STARTS), len(SORT_KEYS), SPECIAL_SORT_ORDERS[ctx.tier], len(SORT_ENUM_STARTS),
+           SPECIAL_BULK_ENUM_ROUNDS[ctx.tier],
+           ' (quick: of the sort and bulk-removal combinations the half that belongs to the parity of VERIF_SEED)' if ctx.quick else '')]
     if ctx.shard == 0:
         yield {'kind': 'repo-tests'}        # the repository's own tests under K1/K2, as one more workload
     for case in tolerated_cases(ctx):       # every shard (= under every ambient); counted, never judged
